@@ -195,8 +195,8 @@ AddVirt ==
   /\ \E j \in 1..Len(ints), m \in {1, Len(ints)}, c \in {1, 100}, t \in 1..8 :
        LET a == R(<<ints[j].n>>)  b == R(<<ints[m].n>>)  n == NextName
            isScalar(nm) == \E q \in 1..Len(fields) : fields[q].name = nm /\ fields[q].kind = "scalar" /\ fields[q].st \in {"UInt", "Int"}
-           \* products stay far inside TLC's integers; an alias of a (non-constant) virtual field is left to C07 (finding F10)
-           guard == (t = 2 => ints[j].max <= (2 ^ 26) \div ints[m].max) /\ (t = 7 => ~ints[j].virt)
+           \* products stay far inside TLC's integers
+           guard == (t = 2 => ints[j].max <= (2 ^ 26) \div ints[m].max)
        IN /\ guard
           /\ CASE t = 1 -> Push(Virt(n, Op2("+", a, I(c)), "int", <<>>))
                [] t = 2 -> Push(Virt(n, Op2("*", a, b), "int", <<>>))
